@@ -1,0 +1,7 @@
+//go:build !verif
+
+package rueidis
+
+// verifYieldAfterIncrWaits is a scheduling point for the verification harness (build tag verif); it is
+// empty, and inlined away, in normal builds.
+func verifYieldAfterIncrWaits(uint32) {}
